@@ -8,12 +8,12 @@ LOCALS = ["PUB", "SUB", "XPUB", "REQ", "REP", "DEALER", "ROUTER", "PUSH", "PULL"
 NAMES = ["PAIR", "PUB", "SUB", "REQ", "REP", "DEALER", "ROUTER", "PULL", "PUSH", "XPUB", "XSUB", "STREAM"]
 PEERT = NAMES + ["BOGUS", "MISSING"]
 VERS = [(1, 0), (2, 1), (3, 0), (3, 1), (4, 0)]
-MECHS = [b"NULL", b"PLAIN", b"CURVE", b"BOGUS"]
+MECHS = [b"NULL", b"PLAIN", b"CURVE", b"BOGUS", b"NULLX", b"PLAINTEXT", b"CURVE25519", b"NUL", b"ABCDEFGHIJKLMNOPQRST"]
 SIGS = ["ok", "bad0", "bad9"]
 IDS = [None, b"", b"i", b"I" * 255, b"J" * 256]
 FIRSTS = ["ready", "cmd", "msg"]
 EXHAUSTIVE = {"quick": False, "thorough": True}
-RULE = ("grid: 9 local types x 14 peer Socket-Type values (12 names, unknown, missing) x 5 versions x 4 mechanisms x 3 signature variants x "
+RULE = ("grid: 9 local types x 14 peer Socket-Type values (12 names, unknown, missing) x 5 versions x 9 mechanisms (the three known ones, names that only begin with a known one, a truncated one, a full 20-octet field) x 3 signature variants x "
         "5 identity options x 3 first-item kinds = 113400 scripted attaches (thorough: all; quick: all 12x12 table queries + a seeded sample "
         "covering every value of every dimension and every (local, peer type) pair); each attach is followed by a probe that shows whether the "
         "peer is registered exactly once / exchanges messages; distinct = distinct cells; non-trivial = all")
